@@ -75,7 +75,7 @@ class Trace:
     def brief(self) -> dict:
         out = {
             "cell": list(self.cell),
-            "events": [e.brief() for e in self.events if e.kind not in ("CATCH", "WITH_ENTER", "WITH_EXIT", "SETATTR", "OPAQUE")],
+            "events": [e.brief() for e in self.events if e.kind not in ("CATCH", "WITH_ENTER", "WITH_EXIT", "SETATTR", "OPAQUE", "DECIDE")],
             "outcome": self.outcome,
         }
         if self.outcome == "raise":
@@ -884,6 +884,23 @@ def done_callback_traces(pm: ProtocolModel):
 
     hooks = {counters.methods["should_complete"].fq: h_should_complete,
              cex.methods["should_execution_suspend"].fq: h_should_suspend}
+    ews_cls = prog.cls("concurrency.models", "ExecutableWithState")
+    ts_cls = prog.cls("concurrency.executor", "TimerScheduler")
+
+    def mk_rec(kind):
+        def h(it, f, sv, a, k, n):
+            it.emit(kind, n, method=f.name, args=[x.key() for x in a], recv=sv.key() if sv is not None else "?")
+            return NONE
+        return h
+
+    for mname in ("complete", "fail", "suspend", "suspend_with_timeout", "reset_to_pending", "run"):
+        if mname in ews_cls.methods:
+            hooks[ews_cls.methods[mname].fq] = mk_rec("BRANCH")
+    for mname in ("complete_task", "fail_task"):
+        if mname in counters.methods:
+            hooks[counters.methods[mname].fq] = mk_rec("COUNTER")
+    if "schedule_resume" in ts_cls.methods:
+        hooks[ts_cls.methods["schedule_resume"].fq] = mk_rec("SCHEDULE")
 
     def self_factory(it, state):
         o = Obj(cex, label="cexec")
